@@ -2392,6 +2392,8 @@ PROPS = {
         'judge_replay': lambda c: judge_C03(c) if 'ops' in c.meta else [],
         'pinned': ['C03_fast_in_call_safe_R', 'C03_fast_out_call_safe_R', 'C03_fast_in_run_safe_R', 'C03_fast_out_run_safe_R',
                    'C03_ctor_fast_in_R', 'C03_ctor_fast_out_R', 'C03_fast_window_R',
+                   'C03_fast_in_steps_safe_R', 'C03_fast_in_steps_start_R', 'C03_step_up_compatible', 'C03_step_down_compatible',
+                   'C03_sinc_in_steps_safe_R', 'C03_sinc_in_steps_start_R',
                    'C03_sinc_in_call_safe_R', 'C03_sinc_in_run_safe_R', 'C03_ctor_sinc_in_R',
                    'C03_sinc_out_call_safe_R', 'C03_sinc_out_run_safe_R', 'C03_ctor_sinc_out_R',
                    'C03_fft_inout_call_safe', 'C03_fft_inout_run_safe', 'C03_fft_in_call_safe_R', 'C03_fft_in_run_safe_R',
@@ -2411,7 +2413,8 @@ PROPS = {
         'run': run_C04,
         'judge_replay': lambda c: judge_C04(c) if 'ops' in c.meta else [],
         'pinned': ['C04_fast_in_counts_R', 'C04_fast_out_counts_R', 'C04_fast_in_next_le_max_R', 'C04_sinc_in_next_le_max_R', 'C04_fast_out_next_le_max_R',
-                   'C04_sinc_in_counts_R', 'C04_sinc_out_counts_R', 'C04_fft_in_counts_R', 'C04_fft_out_counts_R', 'C04_fft_inout_counts'],
+                   'C04_sinc_in_counts_R', 'C04_sinc_out_counts_R', 'C04_fft_in_counts_R', 'C04_fft_out_counts_R', 'C04_fft_inout_counts',
+                   'C04_fast_in_steps_counts_R', 'C04_sinc_in_steps_counts_R'],
         'unproved': ['next <= max in binary64 (the inequalities are proved over R; the fix of D7 makes both sides the same association, '
                      'monotonicity of rounding is not formalised)', 'next <= max for the sinc fixed-output and the FFT types: by the predicate on every trace',
                      'ratio changes outside the envelope'],
@@ -2423,7 +2426,7 @@ PROPS = {
         'judge_replay': lambda c: judge_C06(c) if (c.meta.get('warp') and 'ops' in c.meta) else [],
         'pinned': ['C06_instants_fixed_out_R', 'C06_instants_fixed_in_R', 'C06_loop_ops_R', 'C06_spacing_R', 'C06_increment_fixed_in_R',
                    'C06_increment_fixed_out_R', 'C06_step_immediate_R', 'C06_ramp_interval_R', 'C06_ramp_monotone_R',
-                   'C06_steps_positive_R', 'C06_ramp_reaches_target_R', 'C06_after_ramp_R'],
+                   'C06_steps_positive_R', 'C06_ramp_reaches_target_R', 'C06_after_ramp_R', 'C06_fast_in_step_call_R', 'C06_sinc_in_step_call_R'],
         'unproved': ['C06_full_fixed_in is refuted in Coq (C06_full_fixed_in_refuted): beyond frame A of a fixed-input ramp the spacing leaves '
                      '[old,new] (recorded finding ramp-overrun)',
                      '"computed from frames actually supplied": for fixed-output ramps the request is too small (recorded finding fixedout-ramp); '
